@@ -15,6 +15,11 @@ ASSUMPTIONS = [
     "the production configuration is the one the Makefile builds on this host (make -n -B TARGETOS=Linux)",
     "code under #ifdef WINDOWS32/ANDROID/DARWIN is not analysed (does not parse on this image)",
     "objects of different struct-field or scalar type do not alias (type-based alias assumption of engine E1/E6)",
+    "integer copies of 32 bits and more preserve the value (the values this code base moves between int, unsigned, size_t "
+    "and socklen_t fit); a copy into fewer than 32 bits yields an equality only when the source is known to fit",
+    "functions and local variables that are not part of the reviewed tree (sa/baseline_functions.json, baseline_locals.json) "
+    "are seen through: helpers are inlined, single-definition copies and pointer aliases are replaced by their definitions "
+    "under the side conditions stated in DESIGN.md section 3.3",
 ]
 
 
